@@ -20,17 +20,6 @@ inductive SplitRes (K : Type) where
 
 namespace Obj
 
-/-- `insert_knot([x, x, …], direction)` one value at a time, with the one float effect the exact
-model cannot produce by itself: on a periodic basis whose domain has collapsed (`start = end`, reached
-only after a faulty periodic insertion into a basis with `n < p + k`) the wrap
-`(x - start) % (end - start)` is `nan` in numpy; `bisect_right(knots, nan)` is `len(knots)` and the
-coefficient loop then reads `knots[len(knots)]`: `IndexError`. -/
-def insertKnotsSeq (o : Obj K) (knots : List K) (dir : ℕ) : PyM (Obj K) :=
-  knots.foldlM (fun (ob : Obj K) x =>
-    let b := ob.basis dir
-    if b.periodic ≥ 0 ∧ b.stop = b.start ∧ (x < b.start ∨ x > b.stop) then .error .index
-    else ob.insertKnots [x] dir) o
-
 /-- First loop of `split`: for every split value look up the continuity on the ORIGINAL basis
 (`bases = self.bases`), `np.inf ↦ p-1`, and insert `[k] * (continuity + 1)` into the clone. -/
 def splitInsert (o : Obj K) (tol : K) (knots : List K) (dir : ℕ) : PyM (Obj K) :=
@@ -40,7 +29,7 @@ def splitInsert (o : Obj K) (tol : K) (knots : List K) (dir : ℕ) : PyM (Obj K)
     let cont : Int := match c with
       | none => (p : Int) - 1
       | some c => c
-    so.insertKnotsSeq (List.replicate (cont + 1).toNat k) dir) o
+    so.insertKnots (List.replicate (cont + 1).toNat k) dir) o
 
 /-- Non-periodic branch of `split`: `self` is the object the method was called on (its
 `start`/`end` are used by the filter), `so` the clone after the insertions. -/
